@@ -1,16 +1,26 @@
 // C16 harness, part 7: the history-pruner migration (migration/historyprunner) in non-trivial
-// configurations, interrupted and resumed, compared with the unpruned twin, with a natively pruned twin
-// (PruneUpto on a copy) and with the model's pruned shape; then revert down to the floor and re-store.
+// configurations, interrupted (cancel / failing batch write / crash image, any number of times, with
+// configuration changes between starts) and resumed the way migration/runner.go does it. EVERY Migrate call
+// is tied to the extracted model C16/Migrate.v: the batches it commits, the database after every commit
+// (block families, history logs and scratch entries WITH their values), the result and the resume blob,
+// the cut-off. The completed migration is compared with the theorems' final shape (mig_final), with the
+// unpruned twin, with a natively pruned twin (PruneUpto on a copy); then revert to the floor and re-store.
 package main
 
 import (
 	"context"
+	"encoding/binary"
 	"errors"
 	"fmt"
+	"math/big"
+	"runtime"
+	"sort"
 	"strings"
+	"time"
 
 	"github.com/NethermindEth/juno/blockchain/networks"
 	"github.com/NethermindEth/juno/core"
+	"github.com/NethermindEth/juno/db"
 	"github.com/NethermindEth/juno/db/memory"
 	"github.com/NethermindEth/juno/migration/historyprunner"
 	"github.com/NethermindEth/juno/pruner"
@@ -18,22 +28,53 @@ import (
 	"verifharness/hx"
 )
 
+// one start of the node while the migration is pending
+type MigStep struct {
+	Mode     string  `json:"mode"`               // none | cancel | cancel-get | err | crash | crash-wipe (after the scratch-wipe commit)
+	At       int     `json:"at"`                 // commit (cancel, err, crash) or state-update read (cancel-get), 1-based within the call
+	Procs    int     `json:"procs,omitempty"`    // GOMAXPROCS during the call = number of pipeline workers (0: 2)
+	Retained *uint64 `json:"retained,omitempty"` // --prune-retained-blocks changed for this and the following starts
+	MinAge   *bool   `json:"min_age,omitempty"`  // --prune-min-age switched on (1 h) / off from this start on
+	Force    bool    `json:"force,omitempty"`    // apply the configuration change even when no resume blob is stored (not pinned)
+}
+
 type MigCfg struct {
-	L1     string `json:"l1"`      // below | equal | above | absent
-	L1Off  uint64 `json:"l1_off"`  // distance of the L1 head from the local head
-	MinAge bool   `json:"min_age"` // 1 h
-	Mode   string `json:"mode"`    // none | cancel | err | crash : interruption at commit At
-	At     int    `json:"at"`
+	L1     string    `json:"l1"`      // below | equal | above | absent
+	L1Off  uint64    `json:"l1_off"`  // distance of the L1 head from the local head
+	MinAge bool      `json:"min_age"` // 1 h
+	Mode   string    `json:"mode"`    // (older replays) one interruption at commit At: none | cancel | err | crash
+	At     int       `json:"at"`
+	Steps  []MigStep `json:"steps,omitempty"` // the interrupted starts; completing starts follow
 }
 
 func genMigrate(g *hx.RNG, newState bool) *Scenario {
 	n := 14 + g.Intn(14)
+	if g.Chance(30) {
+		n = 30 + g.Intn(14) // room for a floor more than BlockHashLag above the min-age search's probes
+	}
 	sc := genScenario(g, newState, n, false)
 	sc.Kind, sc.Interrupt = "migrate", false
-	m := &MigCfg{L1: []string{"below", "below", "equal", "above", "absent"}[g.Intn(5)], L1Off: uint64(1 + g.Intn(6)),
-		MinAge: sc.Cfg.MinAgeSec > 0, Mode: []string{"none", "cancel", "err", "crash"}[g.Intn(4)], At: 1 + g.Intn(8)}
-	if g.Chance(8) {
+	m := &MigCfg{L1: []string{"below", "below", "below", "equal", "equal", "above"}[g.Intn(6)], L1Off: uint64(1 + g.Intn(6)),
+		MinAge: sc.Cfg.MinAgeSec > 0}
+	if g.Chance(7) {
 		m.L1 = "absent"
+	}
+	k := 1 + g.Intn(3)
+	if g.Chance(20) || m.L1 == "absent" {
+		k = 0
+	}
+	for ; k > 0; k-- {
+		st := MigStep{Mode: []string{"cancel", "cancel-get", "cancel-get", "err", "crash", "crash-wipe"}[g.Intn(6)], Procs: 1 + g.Intn(4)}
+		if st.Mode == "cancel-get" {
+			st.At = 1 + g.Intn(2*n)
+		} else {
+			st.At = 1 + g.Intn(4+2*st.Procs)
+		}
+		if g.Chance(12) {
+			r := uint64(g.Intn(n))
+			st.Retained = &r
+		}
+		m.Steps = append(m.Steps, st)
 	}
 	sc.Mig = m
 	// storage diffs may rewrite the value a slot already has (the legacy backend logs no history entry for such
@@ -78,13 +119,401 @@ func (m *MigCfg) l1(head uint64) (uint64, bool) {
 	return 0, false
 }
 
-// migrateOnce runs one Migrate call the way migration.Runner does (Before, then Migrate)
-func migrateOnce(ctx context.Context, px *proxy, sc *Scenario, state []byte) ([]byte, error) {
-	m := historyprunner.New(sc.Cfg.Retained, secs(sc.Cfg.MinAgeSec))
-	if err := m.Before(state); err != nil {
-		return nil, err
+func (m *MigCfg) steps() []MigStep {
+	if len(m.Steps) > 0 || m.Mode == "" || m.Mode == "none" {
+		return m.Steps
 	}
-	return m.Migrate(ctx, px, &networks.Sepolia, log.NewNopZapLogger())
+	return []MigStep{{Mode: m.Mode, At: m.At}}
+}
+
+// ---------- the entries of a block's state diff the migration walks over, in a fixed order ----------
+type histEntry struct{ hist, scr []byte }
+
+func scratchOf(histKey []byte) []byte {
+	return append([]byte{byte(db.Temporary), histKey[0]}, histKey[1:]...)
+}
+
+func (r *run) histEntries(n uint64) []histEntry {
+	sp := r.specs[n]
+	var out []histEntry
+	add := func(k []byte) { out = append(out, histEntry{k, scratchOf(k)}) }
+	var as []uint64
+	for a := range sp.Storage {
+		as = append(as, a)
+	}
+	sort.Slice(as, func(i, j int) bool { return as[i] < as[j] })
+	for _, a := range as {
+		var ss []uint64
+		for s := range sp.Storage[a] {
+			ss = append(ss, s)
+		}
+		sort.Slice(ss, func(i, j int) bool { return ss[i] < ss[j] })
+		for _, s := range ss {
+			add(db.DeprecatedContractStorageHistoryAtBlockKey(F(a), F(s), n))
+		}
+	}
+	as = as[:0]
+	for a := range sp.Nonces {
+		as = append(as, a)
+	}
+	sort.Slice(as, func(i, j int) bool { return as[i] < as[j] })
+	for _, a := range as {
+		add(db.DeprecatedContractNonceHistoryAtBlockKey(F(a), n))
+	}
+	as = as[:0]
+	for a := range sp.Replace {
+		as = append(as, a)
+	}
+	sort.Slice(as, func(i, j int) bool { return as[i] < as[j] })
+	for _, a := range as {
+		add(db.DeprecatedContractClassHashHistoryAtBlockKey(F(a), n))
+	}
+	return out
+}
+
+func valHex(d db.KeyValueReader, key []byte) string {
+	out := "-"
+	_ = d.Get(key, func(v []byte) error {
+		out = new(big.Int).SetBytes(v).Text(16)
+		return nil
+	})
+	return out
+}
+
+// migProbe: the database in the format of the oracle's `mig dump` (10 lines)
+func (r *run) migProbe(d db.KeyValueReader, head uint64) []string {
+	p := r.probe(d, head)
+	var hist, scr []string
+	for n := uint64(0); n <= head; n++ {
+		var h, s []string
+		for _, e := range r.histEntries(n) {
+			h = append(h, valHex(d, e.hist))
+			s = append(s, valHex(d, e.scr))
+		}
+		hist = append(hist, strings.Join(h, "."))
+		scr = append(scr, strings.Join(s, "."))
+	}
+	mark := "0" // the restage marker [db.Temporary][0]
+	if ok, _ := d.Has([]byte{byte(db.Temporary), 0}); ok {
+		mark = "1"
+	}
+	return []string{"hdr " + p["hdr"], "h2n " + p["h2n"], "txs " + p["txs"], "txl " + p["txl"], "l1l " + p["l1l"],
+		"su " + p["su"], "cm " + p["cm"], "hist " + strings.Join(hist, ";"), "scr " + strings.Join(scr, ";"), "mark " + mark}
+}
+
+// any scratch key at all (the namespace, not only the entries the model knows about)
+func scratchKeys(d db.KeyValueStore) int {
+	it, err := d.NewIterator([]byte{byte(db.Temporary)}, true)
+	hx.Must(err)
+	defer it.Close()
+	n := 0
+	for ok := it.First(); ok; ok = it.Next() {
+		n++
+	}
+	return n
+}
+
+// sameDump compares two 10-line dumps; '-' positions of the implementation's bit strings are ignored
+func sameDump(impl, model []string) string {
+	for i := range model {
+		wi, wm := strings.SplitN(impl[i], " ", 2), strings.SplitN(model[i], " ", 2)
+		ok := false
+		if wi[0] == "hist" || wi[0] == "scr" || wi[0] == "mark" {
+			ok = wi[1] == wm[1]
+		} else {
+			ok = matches(wi[1], wm[1])
+		}
+		if !ok {
+			return fmt.Sprintf("%s: database %s model %s", wi[0], wi[1], wm[1])
+		}
+	}
+	return ""
+}
+
+func blobStr(b []byte) string {
+	if len(b) != 24 {
+		if b == nil {
+			return "-"
+		}
+		return fmt.Sprintf("invalid(%d bytes)", len(b))
+	}
+	return fmt.Sprintf("%d:%d:%d", binary.BigEndian.Uint64(b[0:8]), binary.BigEndian.Uint64(b[8:16]), binary.BigEndian.Uint64(b[16:24]))
+}
+
+func blocksOf(toks []string, pre string) []uint64 {
+	var out []uint64
+	for _, t := range toks {
+		if strings.HasPrefix(t, pre) && !strings.HasPrefix(t, "seed") {
+			var n uint64
+			if _, err := fmt.Sscan(t[len(pre):], &n); err == nil {
+				out = append(out, n)
+			}
+		}
+	}
+	return out
+}
+
+func hasTok(toks []string, t string) bool {
+	for _, x := range toks {
+		if x == t || (t == "P" && strings.HasPrefix(x, "P")) {
+			return true
+		}
+	}
+	return false
+}
+
+func joinU(l []uint64) string {
+	if len(l) == 0 {
+		return "e"
+	}
+	var s []string
+	for _, x := range l {
+		s = append(s, fmt.Sprint(x))
+	}
+	return strings.Join(s, ",")
+}
+
+func joinBatches(bs [][]uint64) string {
+	if len(bs) == 0 {
+		return "-"
+	}
+	var s []string
+	for _, b := range bs {
+		s = append(s, joinU(b))
+	}
+	return strings.Join(s, ";")
+}
+
+// migCall runs one Migrate call the way migration.Runner does (fresh Migrator, Before(stored blob), Migrate)
+// under the interruption `st`, and ties it to the model. Returns what the runner would see.
+type migOut struct {
+	state []byte
+	err   error
+	crash bool
+	fl    string // the floor the model worked with ("-": none)
+}
+
+func (r *run) migCall(px **proxy, st MigStep, retained uint64, minAge bool, blob []byte, l1 uint64, haveL1 bool, head uint64, where string) migOut {
+	c, or := r.c, r.or
+	p := *px
+	procs := st.Procs
+	if procs <= 0 {
+		procs = 2
+	}
+	old := runtime.GOMAXPROCS(procs)
+	ctx, cancel := context.WithCancel(context.Background())
+	p.arm(st.At, st.Mode, cancel)
+	if st.Mode == "none" || st.Mode == "" {
+		p.arm(0, "", nil)
+	}
+	p.rec, p.log, p.gets = true, nil, nil
+	mem := p.Database
+	p.probe = func() []string { return r.migProbe(mem, head) }
+	var age time.Duration
+	cutoff := "-"
+	if minAge {
+		age = time.Hour
+		cutoff = fmt.Sprint(uint64(time.Now().Add(-age).Unix()))
+	}
+	m := historyprunner.New(retained, age)
+	var state []byte
+	err := m.Before(blob)
+	if err == nil {
+		state, err = m.Migrate(ctx, p, &networks.Sepolia, log.NewNopZapLogger())
+	}
+	logs, gets, image, imageAt := p.log, p.gets, p.image, p.imageAt
+	p.disarm()
+	cancel()
+	runtime.GOMAXPROCS(old)
+	c.Hist["migrate:call:"+st.Mode]++
+
+	// ---- what was observed: the commits in order, split into the phases of the call ----
+	var stage, restore [][]uint64
+	putStage := map[uint64]bool{}
+	failed := "" // the step whose batch write failed
+	stageGets := len(gets)
+	seenSetup2 := false
+	var applied []commitRec
+	for _, cr := range logs {
+		kind := "pipe"
+		switch {
+		case hasTok(cr.toks, "P") || hasTok(cr.toks, "WL"):
+			kind = "f1"
+		case hasTok(cr.toks, "WH"):
+			kind = "f2"
+			if !seenSetup2 {
+				stageGets = cr.getsAt
+			}
+			seenSetup2 = true
+		case hasTok(cr.toks, "WS"):
+			kind = "fw"
+		}
+		sb, rb := blocksOf(cr.toks, "S"), blocksOf(cr.toks, "R")
+		for _, b := range sb {
+			putStage[b] = true
+		}
+		if kind == "pipe" {
+			// restorerProgress != 0: set-up and stager are skipped; otherwise the restorer only runs after set-up 2
+			// (the stager may run even when stagerProgress > head: the restage decision)
+			inRestore := seenSetup2 || len(rb) > 0 || (blob != nil && binary.BigEndian.Uint64(blob[8:16]) != 0)
+			if inRestore {
+				kind = "fr"
+			} else {
+				kind = "fs"
+			}
+		}
+		if !cr.applied {
+			failed = kind
+			continue
+		}
+		applied = append(applied, cr)
+		switch kind {
+		case "fs":
+			stage = append(stage, sb)
+		case "fr":
+			restore = append(restore, rb)
+		}
+	}
+	// blocks a stager worker processed without writing anything (no history log at all): they are in no
+	// batch; the first committed stager batch stands for them (no effect either way)
+	if blob != nil && binary.BigEndian.Uint64(blob[8:16]) != 0 {
+		stageGets = 0 // the stager is skipped: every read belongs to the restorer
+	}
+	if len(stage) > 0 {
+		for _, b := range gets[:stageGets] {
+			if !putStage[b] {
+				stage[0] = append(stage[0], b)
+				putStage[b] = true
+			}
+		}
+	}
+	stop, crash := "none", "-"
+	out := migOut{state: state, err: err}
+	switch {
+	case (st.Mode == "crash" || st.Mode == "crash-wipe") && image != nil:
+		out.crash, out.state, out.err = true, nil, nil
+		crash = fmt.Sprint(imageAt)
+		if err != nil || state != nil {
+			// the in-flight call is expected to run to its end; anything else is reported below
+			stop = "?"
+		}
+	case err != nil && failed != "":
+		stop = failed
+	case err != nil:
+		stop = "none" // a genuine error: the model must predict it
+	case state != nil && len(state) == 24:
+		sp, rp := binary.BigEndian.Uint64(state[0:8]), binary.BigEndian.Uint64(state[8:16])
+		if rp == 0 && sp <= head {
+			stop = fmt.Sprintf("cs:%d", sp)
+		} else {
+			stop = fmt.Sprintf("cr:%d", rp)
+		}
+	}
+	if stop == "?" {
+		r.viol("migration-model:result", fmt.Sprintf("%s: a call that should only be copied at commit %d returns (%s, %v)", where, imageAt, blobStr(state), err), true)
+		stop = "none"
+	}
+	// ---- the model's call ----
+	rep := or.Ask(fmt.Sprintf("mig run %s %d %s %s %s %s %s %s", optStr(l1, haveL1), retained, cutoff, blobStr(blob),
+		joinBatches(stage), joinBatches(restore), stop, crash), 2)
+	w := strings.Fields(rep[0])
+	kv := map[string]string{}
+	for _, x := range w[1:] {
+		if p := strings.SplitN(x, "=", 2); len(p) == 2 {
+			kv[p[0]] = p[1]
+		}
+	}
+	out.fl = kv["floor"]
+	got := "done"
+	switch {
+	case out.crash:
+		got = "crash"
+	case err != nil:
+		got = "err"
+	case state != nil:
+		got = "blob:" + blobStr(state)
+	}
+	desc := fmt.Sprintf("%s: Migrate(l1 %s, head %d, retained %d, min-age %v, stored blob %s, %s at %d, %d workers)",
+		where, optStr(l1, haveL1), head, retained, minAge, blobStr(blob), st.Mode, st.At, procs)
+	c.Count("migcall "+got+" "+st.Mode, got != "done" || len(applied) > 0)
+	if got != w[0] {
+		what := "result"
+		if strings.HasPrefix(got, "blob") && strings.HasPrefix(w[0], "blob") {
+			what = "blob"
+		}
+		r.viol("migration-model:"+what, fmt.Sprintf("%s returns %s (%v), model %s", desc, got, err, w[0]), true)
+	}
+	if kv["ok"] != "1" && !(stop == "none" && w[0] == "err") { // (a failure the model predicts itself ends the phase early)
+		r.viol("migration-model:schedule", fmt.Sprintf("%s: the blocks the pipeline processed are not what the resume point says (a block skipped, or outside the phase's range): stager %s restorer %s stop %s",
+			desc, joinBatches(stage), joinBatches(restore), stop), true)
+	}
+	if kv["exact"] != "1" {
+		r.viol("migration-model:repeat", fmt.Sprintf("%s: a block was processed twice in one call: stager %s restorer %s", desc, joinBatches(stage), joinBatches(restore)), true)
+	}
+	// the batches, in commit order
+	var obs []string
+	for _, cr := range applied {
+		if len(cr.toks) == 0 {
+			obs = append(obs, "e")
+		} else {
+			obs = append(obs, strings.Join(cr.toks, ","))
+		}
+	}
+	// stager batches: the model lists every block of the batch, the database only sees the ones that had a log
+	model := strings.TrimPrefix(rep[1], "batches ")
+	if !sameBatches(strings.Join(obs, "|"), model) {
+		r.viol("migration-model:batches", fmt.Sprintf("%s commits %s, model %s", desc, strings.Join(obs, "|"), model), true)
+	}
+	// the database after every commit
+	for k, cr := range applied {
+		if d := sameDump(cr.probe, or.Ask(fmt.Sprintf("mig dump %d", k+1), 10)); d != "" {
+			r.viol("migration-model:store:"+strings.SplitN(d, ":", 2)[0], fmt.Sprintf("%s after commit %d/%d (%s): %s", desc, k+1, len(applied), strings.Join(cr.toks, ","), d), true)
+			break
+		}
+		c.Count("", false)
+	}
+	if out.crash {
+		*px = &proxy{Database: image}
+	}
+	if d := sameDump(r.migProbe((*px).Database, head), or.Ask("mig dump cur", 10)); d != "" {
+		r.viol("migration-model:store:"+strings.SplitN(d, ":", 2)[0], fmt.Sprintf("%s, afterwards: %s", desc, d), true)
+	}
+	return out
+}
+
+// sameBatches: observed vs model batch summaries; in a stager batch the model may list more blocks than
+// the database saw written (blocks without any history log write nothing)
+func sameBatches(obs, model string) bool {
+	if model == "" {
+		return obs == ""
+	}
+	o, m := strings.Split(obs, "|"), strings.Split(model, "|")
+	if obs == "" {
+		o = nil
+	}
+	if len(o) != len(m) {
+		return false
+	}
+	for i := range m {
+		if o[i] == m[i] {
+			continue
+		}
+		if !strings.HasPrefix(m[i], "S") {
+			return false
+		}
+		ms := map[string]bool{}
+		for _, t := range strings.Split(m[i], ",") {
+			ms[t] = true
+		}
+		if o[i] != "e" {
+			for _, t := range strings.Split(o[i], ",") {
+				if !ms[t] {
+					return false
+				}
+			}
+		}
+	}
+	return true
 }
 
 func runMigrate(c *hx.Ctx, or *hx.Oracle, sc *Scenario, tag string) {
@@ -106,7 +535,8 @@ func runMigrate(c *hx.Ctx, or *hx.Oracle, sc *Scenario, tag string) {
 		hx.Must(core.WriteL1Head(pre, l1HeadOf(l1)))
 	}
 	c.Hist["migrate:l1:"+sc.Mig.L1]++
-	c.Hist["migrate:mode:"+sc.Mig.Mode]++
+	steps := sc.Mig.steps()
+	c.Hist[fmt.Sprintf("migrate:interruptions:%d", len(steps))]++
 	// the floor the property allows: min(l1, head) - retained, lowered by the min-age floor
 	want, prunes := uint64(0), false
 	if haveL1 {
@@ -118,37 +548,88 @@ func runMigrate(c *hx.Ctx, or *hx.Oracle, sc *Scenario, tag string) {
 			}
 		}
 	}
-	// run, interrupted once at commit At, then resumed until complete
+	// the model's chain: diff entries per block, timestamps, the history logs of the unpruned database
+	{
+		var dl, ts, logs []string
+		for i := uint64(0); i <= head; i++ {
+			es := r.histEntries(i)
+			dl = append(dl, fmt.Sprint(len(es)))
+			ts = append(ts, fmt.Sprint(r.now-r.ages[i]))
+			for j, e := range es {
+				if v := valHex(pre, e.hist); v != "-" {
+					logs = append(logs, fmt.Sprintf("%d:%d:%s", i, j, v))
+				}
+			}
+		}
+		lg := "-"
+		if len(logs) > 0 {
+			lg = strings.Join(logs, ",")
+		}
+		or.Ask(fmt.Sprintf("mig init %d %s %s %s", head, strings.Join(dl, ","), strings.Join(ts, ","), lg), 1)
+		c.Hist[fmt.Sprintf("migrate:history-logs>0:%v", len(logs) > 0)]++
+	}
+	// the interrupted starts, then completing starts; the stored blob follows migration/runner.go: a returned
+	// blob is written, (nil, err) and a crash leave the stored one as it is
 	px := &proxy{Database: pre.Copy()}
-	ctx, cancel := context.WithCancel(context.Background())
-	mode := sc.Mig.Mode
-	if mode != "none" {
-		px.arm(sc.Mig.At, mode, cancel)
-	}
-	state, err := migrateOnce(ctx, px, sc, nil)
-	fired := px.armed && px.commits >= sc.Mig.At
-	px.disarm()
-	cancel()
-	if mode == "crash" && px.image != nil { // restart on the crash image with the last persisted state (none)
-		px = &proxy{Database: px.image}
-		state, err = nil, fmt.Errorf("crashed")
-	}
-	if mode != "none" && fired {
-		c.Hist["migrate:interrupted:"+mode]++
-	}
-	for round := 0; (state != nil || err != nil) && round < 6; round++ {
-		if err != nil && (!fired || !haveL1) {
-			break // a genuine error of an uninterrupted run (e.g. no L1 head): reported below
+	retained, minAge := sc.Cfg.Retained, sc.Cfg.MinAgeSec > 0
+	var stored []byte
+	var last migOut
+	done, cfgChanged, floorSeen, unsafeCrash := false, false, "", false
+	interrupted := false
+	for round := 0; round < len(steps)+3 && !done; round++ {
+		st := MigStep{Mode: "none", Procs: 1 + round%3}
+		if round < len(steps) {
+			st = steps[round]
 		}
-		fired = true
-		if err != nil && !errors.Is(err, context.Canceled) {
-			state = nil // runner: (nil, error) clears the state; a crash keeps the last persisted one (none)
+		// a configuration change between starts: the cut-off is pinned in the stored blob, so it must not matter.
+		// Without a stored blob nothing is pinned (the generator does not go there; replays can, with force)
+		if stored != nil || st.Force {
+			if st.Retained != nil && *st.Retained != retained {
+				retained, cfgChanged = *st.Retained, true
+				c.Hist["migrate:config-changed:retained"]++
+			}
+			if st.MinAge != nil && *st.MinAge != minAge {
+				minAge, cfgChanged = *st.MinAge, true
+				c.Hist["migrate:config-changed:min-age"]++
+			}
 		}
-		state, err = migrateOnce(context.Background(), px, sc, state)
+		last = r.migCall(&px, st, retained, minAge, stored, l1, haveL1, head, fmt.Sprintf("start %d", round+1))
+		if last.fl != "-" {
+			if floorSeen != "" && floorSeen != last.fl && stored != nil {
+				r.viol("migration-model:floor-moved", fmt.Sprintf("start %d works with floor %s, an earlier one with %s although a resume blob was stored", round+1, last.fl, floorSeen), false)
+			}
+			floorSeen = last.fl
+		}
+		unsafeCrash = unsafeCrash || (last.crash && st.Mode == "crash-wipe") // (names the class of the defect repaired in /repo)
+		switch {
+		case last.crash:
+			interrupted = true
+			c.Hist["migrate:interrupted:crash"]++
+		case last.err != nil:
+			if !haveL1 || (st.Mode == "none" && !interrupted) {
+				round = 1 << 20 // a genuine error of an uninterrupted first start (e.g. no L1 head): reported below
+			}
+			interrupted = true
+			c.Hist["migrate:interrupted:err"]++
+		case last.state != nil:
+			stored = last.state
+			interrupted = true
+			c.Hist["migrate:interrupted:cancel"]++
+		default:
+			done = true
+		}
+	}
+	err := last.err
+	if !done && err == nil {
+		err = fmt.Errorf("not complete after %d starts (stored blob %s)", len(steps)+3, blobStr(stored))
 	}
 	ctxName := "migrated"
 	if prunes && want == 0 {
 		ctxName = "migrated-floor-zero"
+	}
+	mode := "none"
+	if len(steps) > 0 {
+		mode = steps[0].Mode
 	}
 	if err != nil {
 		// a failed migration stops the node from starting; it must at least not have damaged the database
@@ -161,13 +642,24 @@ func runMigrate(c *hx.Ctx, or *hx.Oracle, sc *Scenario, tag string) {
 			reason = "missing-history-log"
 		case strings.Contains(err.Error(), "getting L1 head"):
 			reason = "no-l1-head"
+		case strings.Contains(err.Error(), "computing oldest block kept"):
+			reason = "floor-reads-pruned-header"
+		case strings.Contains(err.Error(), "load state update"):
+			reason = "state-update-pruned"
 		}
 		c.Hist["migrate:error:"+reason]++
 		c.Count("migrate-error "+reason, true)
 		r.tag = tag
 		if d := sameProbe(r.probe(pre, head), r.probe(px, head)); d != "" {
-			r.viol("migration-failed-damaged:"+reason, fmt.Sprintf("Migrate (l1 %s, head %d, retained %d, min-age %v, interruption %s) returns %q and leaves the database changed: before/after %s",
-				optStr(l1, haveL1), head, sc.Cfg.Retained, sc.Cfg.MinAgeSec > 0, mode, clip(err.Error()), d), false)
+			cl := "migration-failed-damaged:" + reason
+			if interrupted && (reason == "floor-reads-pruned-header" || reason == "state-update-pruned" || reason == "other") {
+				cl = "migration-stuck:" + reason // every further start fails the same way
+				if cfgChanged {
+					cl += ":config-changed"
+				}
+			}
+			r.viol(cl, fmt.Sprintf("Migrate (l1 %s, head %d, retained %d, min-age %v, interruptions %s) returns %q on every further start and leaves the database changed: before/after %s",
+				optStr(l1, haveL1), head, sc.Cfg.Retained, sc.Cfg.MinAgeSec > 0, stepsStr(steps), clip(err.Error()), d), false)
 		} else if reason != "no-l1-head" {
 			r.viol("migration-failed:"+reason, fmt.Sprintf("Migrate returns %q", clip(err.Error())), false)
 		}
@@ -180,12 +672,38 @@ func runMigrate(c *hx.Ctx, or *hx.Oracle, sc *Scenario, tag string) {
 		r.viol("migration:no-oldest", fmt.Sprintf("OldestRetainedBlock: %v", gerr), false)
 		return
 	}
-	if err == nil && got != want {
+	if !cfgChanged && got != want {
 		r.viol("migration:floor", fmt.Sprintf("oldest retained %d, expected min(l1 %s, head %d) - retained %d (min-age %v) = %d",
 			got, optStr(l1, haveL1), head, sc.Cfg.Retained, sc.Cfg.MinAgeSec > 0, want), false)
 	}
-	if haveL1 && got > 0 && or.Ask(fmt.Sprintf("bound %d %d %d %d", l1, head, sc.Cfg.Retained, got), 1)[0] != "1" {
-		r.viol("migration:floor-above-bound", fmt.Sprintf("oldest retained %d with l1 %d head %d retained %d", got, l1, head, sc.Cfg.Retained), false)
+	if floorSeen != "" && floorSeen != fmt.Sprint(got) {
+		r.viol("migration-model:floor", fmt.Sprintf("oldest retained %d, the model's cut-off %s", got, floorSeen), true)
+	}
+	if haveL1 && got > 0 && !cfgChanged {
+		fy := "-"
+		if sc.Cfg.MinAgeSec > 0 {
+			fy = fmt.Sprint(r.firstYoung())
+		}
+		if or.Ask(fmt.Sprintf("mig floor %d %d %d %d %s", l1, head, sc.Cfg.Retained, got, fy), 1)[0] != "1" {
+			r.viol("migration:floor-above-bound", fmt.Sprintf("oldest retained %d with l1 %d head %d retained %d first young %s", got, l1, head, sc.Cfg.Retained, fy), false)
+		}
+	}
+	// the completed migration against the theorems' final shape: pruned to the floor on every block family, the
+	// keeper window's history logs with the unpruned database's values, nothing in the scratch namespace
+	if floorSeen != "" {
+		how := stepsStr(steps)
+		if d := sameDump(r.migProbe(px.Database, head), or.Ask("mig final "+floorSeen, 10)); d != "" {
+			fam := strings.SplitN(d, ":", 2)[0]
+			cl := "migration-damaged:" + fam
+			if unsafeCrash {
+				cl += ":crash-after-scratch-wipe"
+			}
+			r.viol(cl, fmt.Sprintf("the completed migration (floor %s, interruptions %s) does not leave what the property demands: %s", floorSeen, how, d), false)
+			return // (the twin comparisons below would repeat the same damage under other class names)
+		}
+		if k := scratchKeys(px.Database); k != 0 {
+			r.viol("migration-damaged:scratch-left", fmt.Sprintf("%d keys left in the scratch namespace after the completed migration (interruptions %s)", k, how), false)
+		}
 	}
 	r.e = got
 	r.px = px
@@ -206,3 +724,23 @@ func runMigrate(c *hx.Ctx, or *hx.Oracle, sc *Scenario, tag string) {
 	r.compareTwin(r.B, got, ctxName, true)
 	r.revertAndExtend()
 }
+
+func stepsStr(steps []MigStep) string {
+	if len(steps) == 0 {
+		return "none"
+	}
+	var s []string
+	for _, st := range steps {
+		x := fmt.Sprintf("%s@%d", st.Mode, st.At)
+		if st.Retained != nil {
+			x += fmt.Sprintf("(retained:=%d)", *st.Retained)
+		}
+		if st.MinAge != nil {
+			x += fmt.Sprintf("(min-age:=%v)", *st.MinAge)
+		}
+		s = append(s, x)
+	}
+	return strings.Join(s, " ")
+}
+
+var _ = errors.Is
